@@ -79,68 +79,115 @@ def defs(seq, acc=None):
     return acc
 
 
+WRAPPERS2 = ("peek", "opt", "complete", "many0", "many1", "all_consuming", "cut")
+WRAPPERS3 = ("sub", "cond", "count")
+
+
+def descend(sym, D, want_elem=False):
+    """look through the binder of a wrapper step to the value its nested grammar returns (None if sym is not such a binder)"""
+    if not (sym[0] == "v" and sym[1] in D):
+        return None
+    st = D[sym[1]]
+    k = st[0]
+    def ret_of(sq):
+        return sq["ret"][1] if sq["ret"] and sq["ret"][0] in ("ok", "okwhole") else None
+    if k in WRAPPERS2:
+        return ret_of(st[2])
+    if k in WRAPPERS3:
+        return ret_of(st[3])
+    if k == "alt":
+        for s in st[2]:
+            r = ret_of(s)
+            if r is not None:
+                return r
+    if k == "ite":
+        a, b = ret_of(st[3]), ret_of(st[4])
+        if a is None:
+            return b
+        if b is None:
+            return a
+    return None
+
+
 def resolve(sym, acc, D):
-    """follow an accessor; returns the sym reached"""
-    for a in acc:
-        # look through binders of structural steps when the accessor asks for it
-        if sym[0] == "v" and sym[1] in D and a in ("in", "then", "else", "default", "elem") or (sym[0] == "v" and sym[1] in D and (a.startswith("case:") or a.startswith("alt:"))):
-            st = D[sym[1]]
-            k = st[0]
-            if a == "in" and k in ("peek", "opt", "complete", "many0", "many1", "all_consuming", "cut"):
-                sym = st[2]["ret"][1]; continue
-            if a == "in" and k in ("sub", "cond", "count"):
-                sym = st[3]["ret"][1]; continue
-            if a == "then" and k == "ite":
-                sym = st[3]["ret"][1]; continue
-            if a == "else" and k == "ite":
-                sym = st[4]["ret"][1]; continue
-            if a.startswith("case:") and k == "switch":
-                c = int(a[5:])
-                arms = dict((cc, sq) for cc, sq in st[3])
-                if c not in arms:
-                    raise NotFound("no case %d" % c)
-                sym = arms[c]["ret"][1]; continue
-            if a.startswith("alt:") and k == "alt":
-                sym = st[2][int(a[4:])]["ret"][1]; continue
-            if a == "default" and k == "switch":
-                sym = st[4]["ret"][1]; continue
-            if a == "elem" and k == "count":
-                sym = st[3]["ret"][1]; continue
-            if a == "elem" and k in ("many0", "many1"):
-                inner = st[2]["ret"][1]
-                if inner[0] == "v" and inner[1] in D and D[inner[1]][0] == "complete":
-                    inner = D[inner[1]][2]["ret"][1]
-                sym = inner; continue
-            raise NotFound("cannot apply %s to step %s" % (a, k))
-        if a.startswith("f:"):
-            if sym[0] in ("struct",):
-                m = [v for kk, v in sym[2] if kk == a[2:]]
-                if not m:
-                    raise NotFound("no field " + a[2:])
-                sym = m[0]; continue
-            raise NotFound("field %s of %s" % (a[2:], sym[0]))
-        if a.startswith("a:"):
-            if sym[0] == "ctor" and int(a[2:]) < len(sym[2]):
-                sym = sym[2][int(a[2:])]; continue
-            raise NotFound("ctor arg of %s" % sym[0])
-        if a.startswith("t:"):
-            if sym[0] == "tuple":
-                sym = sym[1][int(a[2:])]; continue
-            raise NotFound("tuple item of %s" % sym[0])
-        if a.startswith("vec:"):
-            if sym[0] == "vec":
-                sym = sym[1][int(a[4:])]; continue
-            raise NotFound("vec item of %s" % sym[0])
-        if a == "some":
-            if sym[0] == "ctor" and sym[1].endswith("Option::Some"):
-                sym = sym[2][0]; continue
-            raise NotFound("Some of %s" % sym[0])
+    """follow an accessor; wrapper binders (complete/opt/sub/alt/...) are looked through automatically, so the accessor
+    names only fields, constructor arguments, list elements and the branch of a dispatch"""
+    acc = [a for a in acc if a != "in" and not a.startswith("alt:")]
+    i = 0
+    guard = 0
+    while i < len(acc):
+        a = acc[i]
+        guard += 1
+        if guard > 200:
+            raise NotFound("accessor loop")
+        st = D.get(sym[1]) if sym[0] == "v" else None
+        if a in ("then", "else") and st is not None and st[0] == "ite":
+            sym = (st[3] if a == "then" else st[4])["ret"][1]; i += 1; continue
+        if a.startswith("case:") and st is not None and st[0] == "switch":
+            arms = dict((cc, sq) for cc, sq in st[3])
+            c = int(a[5:])
+            if c not in arms:
+                raise NotFound("no case %d" % c)
+            sym = arms[c]["ret"][1]; i += 1; continue
+        if a == "default" and st is not None and st[0] == "switch":
+            sym = st[4]["ret"][1]; i += 1; continue
         if a == "elem":
             if sym[0] in ("map_chunks2", "map_each"):
-                sym = ["listelem", sym[0], sym[2]]; continue
-            raise NotFound("elem of %s" % sym[0])
+                sym = ["listelem", sym[0], sym[2]]; i += 1; continue
+            if st is not None and st[0] in ("many0", "many1", "count"):
+                inner = (st[2] if st[0] != "count" else st[3])["ret"][1]
+                d = descend(inner, D)
+                while d is not None and inner[0] == "v" and D[inner[1]][0] == "complete":
+                    inner = d
+                    d = descend(inner, D)
+                sym = inner; i += 1; continue
+        if a.startswith("f:") and sym[0] == "struct":
+            m = [v for kk, v in sym[2] if kk == a[2:]]
+            if not m:
+                raise NotFound("no field " + a[2:])
+            sym = m[0]; i += 1; continue
+        if a.startswith("a:") and sym[0] == "ctor" and int(a[2:]) < len(sym[2]):
+            sym = sym[2][int(a[2:])]; i += 1; continue
+        if a.startswith("t:") and sym[0] == "tuple":
+            sym = sym[1][int(a[2:])]; i += 1; continue
+        if a.startswith("vec:") and sym[0] == "vec":
+            sym = sym[1][int(a[4:])]; i += 1; continue
+        if a == "some" and sym[0] == "ctor" and sym[1].endswith("Option::Some"):
+            sym = sym[2][0]; i += 1; continue
+        d = descend(sym, D)
+        if d is not None:
+            sym = d
+            continue
         raise NotFound("accessor %s on %s" % (a, sym[0]))
     return sym
+
+
+def wire_signature(b, seq):
+    """identity of a wire integer that does not depend on binder numbering: the kinds and widths of the consuming
+    steps that precede it in its own (innermost) sequence"""
+    found = []
+    def rec(sq):
+        sig = []
+        for st in sq["steps"]:
+            if st[0] == "u" and st[1] == b:
+                found.append(tuple(sig))
+                return True
+            if st[0] in ("u",):
+                sig.append(("u", st[2]))
+            elif st[0] in ("bytes", "tag", "sub", "opt", "cond", "count", "many0", "many1", "complete", "alt", "ite", "switch"):
+                sig.append((st[0],))
+            for x in st:
+                if isinstance(x, dict) and rec(x):
+                    return True
+                if isinstance(x, list):
+                    for y in x:
+                        if isinstance(y, dict) and rec(y):
+                            return True
+                        if isinstance(y, list) and len(y) == 2 and isinstance(y[1], dict) and rec(y[1]):
+                            return True
+        return False
+    rec(seq)
+    return found[0] if found else None
 
 
 def cond_vars(seq):
@@ -204,8 +251,18 @@ def run(tier, repo):
             try:
                 sseq = spec_seq(specfn)
                 ssym = resolve(sseq["ret"][1], acc, defs(sseq))
-                rp.check(ssym == sym or (ssym[0] == "listelem" and sym[0] == "listelem"), "UNCONSTRAINED", key + "/same-wire-element", site(f), "%s is fed by a different wire element than in the reference grammar" % what,
-                         expected=sym_str(ssym) if ssym[0] != "listelem" else "list element", found=sym_str(sym) if sym[0] != "listelem" else "list element", why_ok="same wire element as the reference grammar")
+                def core(x):
+                    return x[2][0] if x[0] == "ctor" and len(x[2]) == 1 else x
+                a_, b_ = core(ssym), core(sym)
+                if a_[0] == "listelem" or b_[0] == "listelem":
+                    same = a_[0] == b_[0]
+                elif a_[0] == "v" and b_[0] == "v":
+                    same = wire_signature(a_[1], sseq) == wire_signature(b_[1], seq)
+                else:
+                    same = a_[0] == b_[0]
+                rp.check(same, "UNCONSTRAINED", key + "/same-wire-element", site(f), "%s is fed by a different wire element than in the reference grammar" % what,
+                         expected=str(wire_signature(a_[1], sseq)) if a_[0] == "v" else a_[0], found=str(wire_signature(b_[1], seq)) if b_[0] == "v" else b_[0],
+                         why_ok="same position in its wire structure as in the reference grammar")
             except NotFound:
                 pass
         if sym[0] == "listelem":
